@@ -98,4 +98,18 @@ theorem inI32_shiftDn (a : BitVec 32) (k : Nat) : InI32 (a.toInt / 2 ^ k) := by
   have hc : ((2 ^ k : Nat) : Int) = (2 : Int) ^ k := by simp
   rw [hc] at h; exact h
 
+theorem xor_m1 (a : BitVec 32) : a ^^^ -1#32 = ~~~a := by
+  have h : (-1#32 : BitVec 32) = BitVec.allOnes 32 := by decide
+  rw [h, BitVec.xor_allOnes]
+theorem toInt_not32 (a : BitVec 32) : (~~~a).toInt = -a.toInt - 1 := by
+  rw [BitVec.toInt_not]
+  have hl := a.isLt
+  rcases toInt_cases32 a with h1 | h1
+  · have hb : 2 * a.toNat < 2 ^ 32 := by
+      rw [BitVec.toInt_eq_toNat_cond] at h1; split at h1 <;> omega
+    rw [h1]; unfold Int.bmod; simp; omega
+  · have hb : ¬ 2 * a.toNat < 2 ^ 32 := by
+      rw [BitVec.toInt_eq_toNat_cond] at h1; split at h1 <;> omega
+    rw [h1]; unfold Int.bmod; simp; omega
+
 end AldorVerif.C12
